@@ -292,7 +292,8 @@ SCENARIOS = {
 }
 QUICK_FULL2 = ["plain-model"]                                   # exhaustive <= 2 preemptions also in the quick tier
 QUICK_SLICED = ["three-threads-chain", "stub-reuse-tri"]        # <= 1 preemption only sampled in the quick tier
-THOROUGH_SLICED = ["three-threads-chain", "stub-reuse-tri"]     # <= 2 preemptions only sampled in the thorough tier
+THOROUGH_SLICED = ["three-threads-chain", "stub-reuse-tri", "holder-and-node", "mutual-recursive-same"]
+#                                                                 <= 2 preemptions only sampled in the thorough tier
 
 
 # ---------------------------------------------------------------------------
@@ -688,7 +689,7 @@ def run(ctx: Ctx):
             drv = None
     batch = Batch(ctx, real, drv)
     thorough = ctx.tier == "thorough"
-    t_end = time.time() + ctx.budget(54, 480)
+    t_end = time.time() + ctx.budget(54, 420)
     names = list(SCENARIOS)
     # 0a. the schedule-independent hypothesis of `all_schedules_safe` (`typed`) for every requested type
     if drv is not None:
@@ -727,7 +728,7 @@ def run(ctx: Ctx):
     for name in sorted(names, key=lambda n: n not in QUICK_FULL2):
         sc = Scenario(name)
         full = (name in QUICK_FULL2) or (thorough and name not in THOROUGH_SLICED)
-        dl = t_end if full else min(t_end, time.time() + ctx.budget(2, 45))
+        dl = t_end if full else min(t_end, time.time() + ctx.budget(2, 15))
         n = explore(ctx, real, batch, sc, 2, dl, None if full else ctx.rng)
         if full and time.time() < dl and exhaustive[name]["max_preemptions"] == 1:
             exhaustive[name]["max_preemptions"] = 2
@@ -738,14 +739,15 @@ def run(ctx: Ctx):
             for name in names:
                 sc = Scenario(name)
                 exhaustive[name][f"schedules_le{k}_sampled"] = explore(
-                    ctx, real, batch, sc, k, min(t_end + 60, time.time() + 8), ctx.rng)
+                    ctx, real, batch, sc, k, time.time() + 4, ctx.rng)
                 batch.flush()
     ctx.extra["exhaustive"] = False
     ctx.extra["exhaustive_part"] = exhaustive
     # 3. random schedules at yield-point granularity (model-compared), including the facade form retort.load(...)
     #    and malformed schedules (ids of finished / non-existing threads: both sides fall back deterministically)
+    t_rand = time.time() + ctx.budget(6, 40)
     for i in range(ctx.budget(60, 4000)):
-        if time.time() > t_end + ctx.budget(10, 60):
+        if time.time() > t_rand:
             break
         sc = Scenario(ctx.rng.choice(names))
         r = ctx.rng.random()
@@ -765,8 +767,9 @@ def run(ctx: Ctx):
                     "trace_head": oc.trace[:6]}, every=37)
     batch.flush()
     # 4. statement granularity (every line of the traced functions is a preemption point): direct oracle only
+    t_lines = time.time() + ctx.budget(6, 40)
     for i in range(ctx.budget(40, 3000)):
-        if time.time() > t_end + ctx.budget(20, 120):
+        if time.time() > t_lines:
             break
         sc = Scenario(ctx.rng.choice(names))
         oc = execute(real, sc, S.chooser_random(ctx.rng, ctx.rng.choice([0.05, 0.2])), mode="lines",
